@@ -115,6 +115,10 @@ type wConn struct {
 	off  int
 	log  []wEvent
 	sig  chan struct{}
+	// allocation measurement: TotalAlloc is sampled when the server asks for the first byte of the (first)
+	// oversize item and again when ServeAgent returns
+	markOff int
+	m0      *runtime.MemStats
 }
 
 func (c *wConn) note(e wEvent) {
@@ -130,6 +134,10 @@ func (c *wConn) note(e wEvent) {
 
 func (c *wConn) Read(p []byte) (int, error) {
 	c.note(wEvent{kind: 'r'})
+	if c.markOff >= 0 && c.m0 == nil && c.consumed() == c.markOff {
+		c.m0 = &runtime.MemStats{}
+		runtime.ReadMemStats(c.m0)
+	}
 	if c.pipe != nil {
 		n, err := c.pipe.Read(p)
 		c.mu.Lock()
@@ -623,7 +631,15 @@ func runStream(e *wEnv, items []wCItem, mode string, measure bool) wResult {
 		in = append(in, it.b...)
 	}
 	total := len(in)
-	c := &wConn{sig: make(chan struct{}, 1)}
+	c := &wConn{sig: make(chan struct{}, 1), markOff: -1}
+	if measure {
+		for i, it := range items {
+			if it.It.K == "oversize" {
+				c.markOff = starts[i]
+				break
+			}
+		}
+	}
 	var hside net.Conn
 	var drained bytes.Buffer
 	var dmu sync.Mutex
@@ -656,16 +672,18 @@ func runStream(e *wEnv, items []wCItem, mode string, measure bool) wResult {
 		pan interface{}
 	}
 	done := make(chan ret, 1)
-	var m0, m1 runtime.MemStats
+	var m1 runtime.MemStats
 	if measure {
 		runtime.GC()
-		runtime.ReadMemStats(&m0)
 	}
 	go func() {
 		var r ret
 		defer func() {
 			if p := recover(); p != nil {
 				r.pan = p
+			}
+			if measure {
+				runtime.ReadMemStats(&m1)
 			}
 			done <- r
 		}()
@@ -709,7 +727,7 @@ loop:
 			}
 			c.note(wEvent{kind: 'x'})
 			if w >= 0 {
-				other := &wConn{in: wFrame([]byte{byte(w), 40}), sig: make(chan struct{}, 1)}
+				other := &wConn{in: wFrame([]byte{byte(w), 40}), sig: make(chan struct{}, 1), markOff: -1}
 				func() {
 					defer func() { recover() }()
 					_ = ServeAgent(e.srv, other)
@@ -720,9 +738,8 @@ loop:
 			}
 		}
 	}
-	if measure {
-		runtime.ReadMemStats(&m1)
-		res.alloc = m1.TotalAlloc - m0.TotalAlloc
+	if measure && c.m0 != nil && !res.hung {
+		res.alloc = m1.TotalAlloc - c.m0.TotalAlloc
 		if res.alloc > 8<<20 {
 			debug.FreeOSMemory()
 		}
